@@ -181,6 +181,9 @@ def gen(rng):
             if any(x["kind"] == TYPENAME and x["owner"] == o["owner"] for x in objs):
                 continue
         objs.append(o)
+    if not objs:
+        # every draw was a duplicate or a field of an interface type: one plain function
+        objs.append(dict(kind=FUNC, pkg=rng.randrange(np), name=0, exp=1, owner=-1, nparams=1, named=1, nresults=1, recvnamed=0))
     fields = [i for i, o in enumerate(objs) if o["kind"] == FIELD]
     keys = []
     for _ in range(rng.randint(4, 12)):
